@@ -2,10 +2,18 @@
 
 package cache
 
-import "github.com/miekg/dns"
+import (
+	"github.com/miekg/dns"
+	"github.com/semihalev/sdns/middleware"
+)
 
 // VerifC01SearchAdditionalAnswer exposes searchAdditionalAnswer (the CNAME
 // chase merge that ANDs the hop's AD bit into the outer message). Accessor only.
 func VerifC01SearchAdditionalAnswer(msg, res *dns.Msg) (string, bool) {
 	return searchAdditionalAnswer(msg, res)
+}
+
+// VerifC01ServeWire exposes CacheEntry.serveWire (the byte-serving hit path). Accessor only.
+func VerifC01ServeWire(e *CacheEntry, req *dns.Msg, do bool) ([]byte, middleware.WireInfo, bool) {
+	return e.serveWire(req, 64, do)
 }
